@@ -1,5 +1,5 @@
 (* Pins_C06.v — the statements of Props_C06.v, pinned. *)
-From FV Require Import Base ListLib GroupModel GroupProofs GroupProofs2 GroupProofs3 GroupProofs4 GroupWitness Props_C06.
+From FV Require Import Base ListLib GroupModel GroupProofs GroupProofs2 GroupProofs3 GroupProofs4 GroupProofs5 GroupWitness Props_C06.
 Open Scope N_scope.
 Check C06_count :
   forall (c : gcfg) (fs : list file),
@@ -24,30 +24,28 @@ Check C06_isolate_at_most_one_per_root :
     subgroup_count c fs <= N.of_nat (length (roots c)).
 Check C06_count_order_independent :
   forall (c : gcfg) (fs fs' : list file), NoDup fs -> Permutation.Permutation fs fs' -> subgroup_count c fs = subgroup_count c fs'.
-Check C06_reported_iff_partial_except_K11 :
+Check C06_reported_iff :
   forall (H : list N -> hash) (T : list N -> option (list N)) (c : gcfg) (n : nd) (scanned : list file),
     wf_nd n -> (forall st f, fails n st f = false) ->
     wf_ids scanned -> wf_len scanned -> wf_paths scanned ->
-    collision_free H c scanned -> ~ K11 c scanned -> transform c = false -> skip_content c = false ->
+    collision_free H c scanned -> transform c = false -> skip_content c = false ->
     let out := group_files H T c n scanned in
     (forall f, ok c scanned f -> ((exists g, In g out /\ In f (gfiles g)) <-> qualifies c scanned f)) /\
     (forall g f, In g out -> In f (gfiles g) -> is_class c scanned f (gfiles g) /\ matches_strictly c g = true).
+Check C06_reported_iff_transform :
+  forall (H : list N -> hash) (T : list N -> option (list N)) (c : gcfg) (n : nd) (scanned : list file),
+    wf_nd n -> (forall st f, fails n st f = false) ->
+    wf_ids scanned -> wf_paths scanned -> collision_free_T H T scanned -> transform c = true ->
+    let out := group_files H T c n scanned in
+    (forall f0, ok' c scanned f0 -> hasT T f0 = true ->
+       ((exists g, In g out /\ In (tfile T f0) (gfiles g)) <-> qualifiesT T c scanned f0)) /\
+    (forall g f0 cl, In g out -> ok' c scanned f0 -> In (tfile T f0) (gfiles g) -> is_classT T c scanned f0 cl ->
+       Permutation.Permutation (gfiles g) (map (tfile T) cl)).
 Check C06_filter_rule :
   forall (c : gcfg) (g : group),
     matches_strictly c g = match repl c with
                            | Over rf => rf <? subgroup_count c (gfiles g)
                            | Under rf => subgroup_count c (gfiles g) <? rf
                            end.
-Check C06_K11_witness :
-  exists (H : list N -> hash) (T : list N -> option (list N)) (c : gcfg) (n : nd) (scanned : list file),
-    wf_nd n /\ (forall st f, fails n st f = false) /\ wf_ids scanned /\ wf_len scanned /\ collision_free H c scanned /\
-    skip_content c = false /\ transform c = false /\ K11 c scanned /\
-    exists g f, In g (group_files H T c n scanned) /\ In f (gfiles g) /\ ~ is_class c scanned f (gfiles g).
-Check C06_K10_witness :
-  exists (H : list N -> hash) (T : list N -> option (list N)) (c : gcfg) (n : nd) (scanned : list file),
-    wf_nd n /\ (forall st f, fails n st f = false) /\ wf_ids scanned /\ wf_len scanned /\
-    collision_free_T H T scanned /\ K10 c /\
-    exists g, In g (group_files H T c n scanned) /\ matches_strictly c g = false.
 Check (eq_refl : distinct_ids = fun fs k =>
          exists ids, NoDup ids /\ (forall i, In i ids <-> exists f, In f fs /\ fid f = i) /\ length ids = k).
-Check (eq_refl : K10 = fun c => transform c = true /\ exists k, repl c = Under k).
